@@ -81,6 +81,7 @@ fn run_g<C: Codec>(c: &Case, trace: bool) -> RunOut {
     if enc.len() >= 130 {
         out.nontrivial = true;
     }
+    out.mix(&enc);
     let stream = Rc::new(enc);
     let len = stream.len();
     let h = spec::ref_frame(&stream).map(|x| x.0).unwrap_or(0);
